@@ -1141,11 +1141,30 @@ def account(ctx, case):
     ctx.hit(case.op + ('/exact' if case.exact else '/general') + ('/err' if case.impl is None else '/ok'))
     if case.sig is not None:
         # operation-specific class (index-expression kind, point position, given parameters, ...)
-        ctx.hit('{}:{}'.format(case.op, case.sig[-1])[:80])
+        last = case.sig[-1]
+        for t in (set(last) if isinstance(last, tuple) else [last]):
+            ctx.hit('{}:{}'.format(case.op, t)[:80])
     if case.impl is None:
         ctx.err(case.op)
     for key, msg in case.problems:
-        ctx.violation('{} {}'.format(case.op, key), msg[:500], case.replay)
+        report(ctx, case, key, msg)
+
+
+def report(ctx, case, key, msg):
+    """Oracle failure -> ctx.violation.  A known finding is recorded once per run (its witnesses
+    are frequent and must not fill the violation list and crowd out anything new)."""
+    full = '{} {}'.format(case.op, key)
+    st = getattr(ctx, '_c14', None)
+    if st is None:
+        st = ctx._c14 = {'known': core.load_known(ctx.pid), 'seen': {}}
+    k = core.match_known({'key': full}, st['known'])
+    if k is not None:
+        st['seen'][k['id']] = st['seen'].get(k['id'], 0) + 1
+        ctx.extra['known_finding_witnesses'] = dict(st['seen'])
+        if st['seen'][k['id']] > 1:
+            return False
+    ctx.violation(full, msg[:500], dict(case.replay, key=key))
+    return k is None
 
 
 def run(ctx):
@@ -1160,16 +1179,17 @@ def run(ctx):
 def search(ctx, broken):
     """A proof obligation or the correspondence broke and the oracle saw nothing in `run`: evaluate
     the oracle (the relations of the property statement) on many more generated cases."""
+    new = 0
     for c in gen_cases(ctx, 40000 if ctx.quick else 120000):
         ctx.evaluations += 1
         for key, msg in c.problems:
-            ctx.violation('{} {}'.format(c.op, key), msg[:500], c.replay)
-        if len(ctx.violations) >= 20:
+            if report(ctx, c, key, msg):
+                new += 1
+        if new >= 20:
             break
 
 
 def replay(ctx, rp):
-    import random
     op = rp['op']
     exact = rp.get('exact', True)
     if op == 'props':
@@ -1220,5 +1240,6 @@ def replay(ctx, rp):
                            {'g': 'global', 'f': 'flat', 'a': 'peraxis'}[fw[0]], exact, rp)
     else:
         return None
-    assert random
-    return '; '.join('{}: {}'.format(k, m) for k, m in c.problems) if c.problems else None
+    # only the recorded relation counts (the same input may also show a known finding)
+    probs = [(k, m) for k, m in c.problems if rp.get('key') in (None, k)]
+    return '; '.join('{}: {}'.format(k, m) for k, m in probs) if probs else None
